@@ -8,5 +8,7 @@ mkdir -p .cache/bin lean/Vise/Gen
 cp /repo/go.sum harness/go.sum
 (cd harness && go build -o ../.cache/bin ./cmd/...)
 .cache/bin/extract /repo > lean/Vise/Gen/Facts.lean
+mkdir -p lean/Vise/Gen/Fn
+.cache/bin/gotrans /repo lean/Vise/Gen/Fn
 (cd lean && lake build Vise ViseProofs visemodel)
 echo setup done
